@@ -1,5 +1,7 @@
 package lazy
 
+import "github.com/coregx/coregex/nfa"
+
 // DFACache uses byte-based capacity (like Rust's cache_capacity).
 
 // DFACache holds mutable state for DFA search operations.
@@ -66,6 +68,11 @@ type DFACache struct {
 	// Statistics
 	hits   uint64
 	misses uint64
+
+	// pikevm is the PikeVM of the NFA fallback (DFA.fallbackPikeVM), created on first use.
+	// It is mutable per-search state like the rest of the cache, so it is owned by the
+	// cache (one goroutine), never by the shared DFA.
+	pikevm *nfa.PikeVM
 }
 
 // Get retrieves a state by its key.
